@@ -25,6 +25,9 @@ def _sx():
     return symexec
 
 
+PURE_MODULES = {"re", "math", "struct", "binascii", "string", "posixpath", "os", "itertools", "operator", "codecs", "html"}
+
+
 def is_num(v):
     if isinstance(v, bool):
         return True
@@ -521,6 +524,10 @@ def make_iter(I, v, node):
     hook = getattr(v, "__sym_iter__", None)
     if hook:
         return hook(I)
+    import collections.abc as _abc
+    if isinstance(v, _abc.Iterator) and type(v).__module__ in ("builtins", "re", "itertools"):
+        items = list(v)
+        return SIter(len(items), lambda k: items[k], "native-iterator")
     raise SymError("cannot iterate %s (%s)" % (type(v).__name__, _sx()._txt(node) if node is not None else ""))
 
 
@@ -613,7 +620,6 @@ def call(I, f, args, kwargs, node, fr):
         h = builtins_model.FUNCS.get(f)
         if h:
             return h(I, args, kwargs, node)
-        raise SymError("call to python function %s.%s without summary" % (f.__module__, f.__qualname__))
     if isinstance(f, types.MethodType):
         # bound method of a real object (e.g. PSSymbolTable.intern bound as LIT)
         fn = f.__func__
@@ -628,6 +634,20 @@ def call(I, f, args, kwargs, node, fr):
     h = builtins_model.lookup(f)
     if h:
         return h(I, args, kwargs, node)
+    # pure library functions / methods of immutable real objects on concrete arguments: native semantics
+    from .methods import concrete
+    import re as _re
+
+    mod = getattr(f, "__module__", None) or ""
+    recv = getattr(f, "__self__", None)
+    pure_fn = isinstance(f, (types.FunctionType, types.BuiltinFunctionType)) and mod.split(".")[0] in PURE_MODULES
+    pure_meth = isinstance(f, (types.BuiltinMethodType, types.MethodType)) and isinstance(
+        recv, (str, bytes, int, float, tuple, frozenset, _re.Pattern, _re.Match))
+    if (pure_fn or pure_meth) and concrete(args, kwargs):
+        try:
+            return f(*args, **kwargs)
+        except Exception as e:  # native semantics, native exception
+            raise sx.SymRaise(type(e), sx._txt(node))
     raise SymError("call to %r not modelled (%s)" % (f, sx._txt(node)))
 
 
